@@ -2,5 +2,7 @@
 From Coq Require Import List NArith.
 From PatVerif Require Import Gen.Src.
 Import ListNotations. Open Scope N_scope.
-Example tie_sizes : s_ed_sizes = [32; 64; 64; 32]. Proof. reflexivity. Qed.
-Example tie_sep : (s_ed_blind_sep, s_ed_sign_blind_sep) = (0, 0). Proof. reflexivity. Qed.
+Ltac t := vm_compute; first [reflexivity | exact I | repeat split; reflexivity].
+Example tie_sizes : tie s_ed_sizes (fun v => v = [32; 64; 64; 32]). Proof. t. Qed.
+Example tie_sep : tie s_ed_blind_sep (fun v => v = 0). Proof. t. Qed.
+Example tie_sep_sign : tie s_ed_sign_blind_sep (fun v => v = 0). Proof. t. Qed.
